@@ -58,6 +58,35 @@ def explicit(tier, seed):  # noqa: C901
         brs2 = [brs[0], {"body": [{"k": "step", "val": 0}, {"k": "raise", "cls": "ValueError", "msg": "raw user error in branch body"}]}, brs[2]]
         node2 = {"k": "par", "branches": brs2, "cfg": cfg} if kind == "par" else {"k": "map", "items": [0, 1, 2], "per_item": brs2, "body": [], "cfg": cfg}
         yield case("%s-batch-with-raising-branch-body" % kind, [node2] + tail)
+    # oversized batch that completed EARLY (minimum reached / tolerance exceeded while other branches were still running or never
+    # started): every replay must rebuild the same statuses and the same completion reason
+    for kind in ("par", "map"):
+        for cfg, decider in (({"min_ok": 1}, "ok"), ({"min_ok": 1, "max_conc": 1}, "ok"), ({"preset": "first_successful"}, "ok"), ({"tol_n": 0}, "fail"),
+                             ({"min_ok": 2, "tol_n": 1}, "ok")):
+            first = {"body": [{"k": "step", "val": 1}], "result": {"big": L + 4000}}
+            if decider == "fail":
+                first = {"body": [{"k": "step", "val": "x" * 10}, {"k": "step", "script": [{"do": "fail", "cls": "ValueError", "msg": "m" * (L + 4000)}],
+                                                                   "retry": {"kind": "preset", "name": "none"}}]}
+            slow = {"body": [{"k": "step", "script": [{"do": "ok", "val": "slow", "gate": "slow"}]}, {"k": "step", "val": "slow2"}]}
+            brs = [first, slow, {"body": [{"k": "step", "script": [{"do": "ok", "val": "slow", "gate": "slow"}]}]}]
+            if cfg.get("min_ok") == 2:
+                brs.insert(1, {"body": [{"k": "step", "val": "second"}], "result": {"big": 1000}})
+            node = {"k": "par", "branches": brs, "cfg": cfg} if kind == "par" else {"k": "map", "items": list(range(len(brs))), "per_item": brs, "body": [], "cfg": cfg}
+            holds = [{"match": {"kind": "gate", "name": "slow"}, "until": {"any": [{"applied": {"Name": "0", "Type": "CONTEXT", "Action": "SUCCEED"}},
+                                                                               {"applied": {"Name": "0", "Type": "CONTEXT", "Action": "FAIL"}}]}}]
+            yield case("%s-early-completion-%s" % (kind, "-".join("%s%s" % kv for kv in sorted(cfg.items()))), [{"k": "try", "body": node, "catch": "*"}] + tail,
+                       holds=holds, opts={"idle_s": 0.4, "hang_s": 3.0})
+    # a branch that completed an oversized child context and then parks on a timer while a sibling keeps the block running: the
+    # branch is resumed in the SAME invocation and runs into its summarised context again, outside replay mode
+    for kind in ("par", "map"):
+        for parker in ({"k": "wait", "s": 1}, {"k": "step", "script": [{"do": "fail", "cls": "ValueError", "msg": "once"}, {"do": "ok", "val": 5}],
+                                               "retry": {"decisions": [("retry", 1), ("stop",)]}},
+                       {"k": "wfc", "init": 0, "decisions": [("cont", 1), ("stop",)]}):
+            b0 = {"body": [{"k": "child", "body": [{"k": "step", "val": "inner"}], "result": {"big": L + 700}}, parker, {"k": "step", "val": "resumed"}]}
+            b1 = {"body": [{"k": "step", "script": [{"do": "ok", "val": "sib", "gate": "sib"}]}]}
+            node = {"k": "par", "branches": [b0, b1], "cfg": None} if kind == "par" else {"k": "map", "items": [0, 1], "per_item": [b0, b1], "body": [], "cfg": None}
+            holds = [{"match": {"kind": "gate", "name": "sib"}, "until": {"event": {"kind": "ret", "path": "0/b0/2"}}}]
+            yield case("%s-branch-resumed-in-same-invocation-%s" % (kind, parker["k"]), [node] + tail, holds=holds, opts={"idle_s": 0.6, "hang_s": 3.0})
     # nested oversized contexts
     yield case("nested-oversized", [{"k": "child", "body": [{"k": "child", "body": [{"k": "step", "val": 1}], "result": {"big": L + 5}}, {"k": "step", "val": 2}],
                                       "result": {"big": L + 9}}] + tail, pat={"p": "crash_enum", "max_points": 12})
@@ -84,7 +113,7 @@ SPEC = Spec(
     thorough={"plain": 0, "enum": 0, "rand": 0, "async": 0},
     rule="result sizes limit-4 .. limit+50 and 2x limit for: a child context's own result (default config and custom summary generator), a "
     "single parallel/map branch's result, a batch result that exceeds the limit although every branch is within it (default config, "
-    "explicit config, custom summary), an oversized batch containing a tolerated failed branch, nested oversized contexts, a non-ASCII "
+    "explicit config, custom summary), an oversized batch containing a tolerated failed branch, an oversized batch that completed early (minimum reached, first successful, tolerance exceeded, with max_concurrency 1), a branch that is resumed in the same invocation after completing an oversized child context (timer, retry, condition), nested oversized contexts, a non-ASCII "
     "payload through a UTF-8 JSON serdes (characters within the limit, bytes over it); each followed by waits and steps so the context is "
     "replayed in at least two later invocations, with enumerated crash points after the summary record on selected scenarios; and final "
     "results/errors from limit-4 to limit+1000 around the 6 MB response limit. Oracle: every CONTEXT SUCCEED payload <= 256 KB measured "
